@@ -20,14 +20,18 @@ from common import Broken, Violation
 from props import c15
 
 MANIFEST = {
-    "text": "Theorems about a hand-written Gallina model of stix2/versioning.py over ALL clock readings (Z microseconds), all "
-            "objects/dicts (association lists), all change sets and all operation chains: the serialized modified time of "
-            "a new version is strictly later than the original's at the spec version's precision whatever the clock reads "
-            "(fudge_strict, nv_strict), strictly increasing along every chain of new_version/revoke/marking operations by "
-            "induction over the chain (chain_increasing), type/id/created/created_by_ref are kept (nv_identity), exactly the "
-            "requested changes are applied and None removes (nv_exact), unmodifiable and SCO-id-contributing properties, "
-            "non-later supplied modified times and revoked objects are refused (nv_unmodifiable, nv_sco_locked, "
-            "supplied_modified_strict, revoked_final), and the generated tables agree with the frozen specification tables.",
+    "text": "26 theorems about a hand-written Gallina model of stix2/versioning.py over ALL clock readings (Z microseconds), all "
+            "objects/dicts (association lists), all change sets, all operation chains and an ARBITRARY class constructor "
+            "(any acceptance test, any per-property cleaning): the serialized modified time of a new version is strictly later "
+            "than the original's at the spec version's precision whatever the clock reads (fudge_strict_20/21, nv_strict), no "
+            "clock reading can make the operation fail (nv_succeeds), strictly increasing along every chain of "
+            "new_version/revoke/marking operations by induction over the chain (chain_increasing; for dicts under the one "
+            "hypothesis that no change set rewrites spec_version, shown necessary by chain_spec_version_rewrite_refuted), "
+            "type/id/created/created_by_ref are kept (nv_identity), exactly the requested changes are applied and None removes, "
+            "for objects up to the constructor's cleaning (nv_exact, nv_exact_dict), unmodifiable and SCO-id-contributing "
+            "properties, non-later supplied modified times and revoked objects are refused (nv_unmodifiable, nv_sco_locked, "
+            "supplied_modified_strict, revoked_final, revoked_chain_ends), ser_value is what the C15-written text denotes "
+            "(ser_is_serialized_text, nv_strict_text), and the generated tables agree with the frozen specification tables.",
     "design_ref": "DESIGN.md 6/C05, Appendix A.1",
     "note": "Trusted: Coq kernel + vm_compute; translators/tr_versioning.py (live tables of /repo); the hand model is tied to "
             "/repo by a correspondence run on every check with a scripted clock substituted from the worker process (no repo "
